@@ -1,6 +1,729 @@
-//! C34 — not built yet.
-use vcommon::Args;
+//! C34 - introspection XML documents round-trip through the zbus_xml model.
+//!
+//! All fields of the model are private, so a document *value* can only be obtained by parsing.
+//! The check generates introspection documents from the grammar (node / interface / method / signal
+//! / property / arg / annotation) with its own XML printer, parses each with zbus_xml and checks
+//!   accessors-return-content : the parsed value shows exactly the generator's content,
+//!   write-succeeds / reparse-succeeds / roundtrip-equal : `parse(write(v)) == v` through both
+//!     `Node::from_reader` and `TryFrom<&str>`.
+//!
+//! Space: nesting depth <= 2 nodes below the root, <= 2 children per list, names over 2 values
+//! (+ absent where optional), signatures over 3, directions/access over all values (+ absent),
+//! annotation values over {a, <, &, ", ', ]]>} (thorough: also "", " x ", é, tab, newline, >).
+//! Every element kind's own attribute product is enumerated completely; lists are [] / every single
+//! element / every element paired with its successor; the contexts above an element use base choice
+//! (see `cap`). The full cross product of the grammar at these bounds is astronomically large.
 
-pub fn main(_args: &Args) -> i32 {
-    vcommon::machinery_failure("C34: check not built yet")
+use std::collections::BTreeMap;
+
+use serde_json::json;
+use vcommon::{hash64, Args, Report, Tier, Violation};
+use zbus_xml::{ArgDirection, Node, PropertyAccess};
+
+// ---------------------------------------------------------------------------------------------
+// generator's own document tree and XML printer
+// ---------------------------------------------------------------------------------------------
+
+#[derive(Clone, Debug, PartialEq)]
+pub struct GAnn {
+    name: String,
+    value: String,
+}
+#[derive(Clone, Debug, PartialEq)]
+pub struct GArg {
+    name: Option<String>,
+    ty: String,
+    dir: Option<&'static str>,
+    anns: Vec<GAnn>,
+}
+#[derive(Clone, Debug, PartialEq)]
+pub struct GMember {
+    name: String,
+    args: Vec<GArg>,
+    anns: Vec<GAnn>,
+}
+#[derive(Clone, Debug, PartialEq)]
+pub struct GProp {
+    name: String,
+    ty: String,
+    access: &'static str,
+    anns: Vec<GAnn>,
+}
+#[derive(Clone, Debug, PartialEq, Default)]
+pub struct GIface {
+    name: String,
+    methods: Vec<GMember>,
+    props: Vec<GProp>,
+    signals: Vec<GMember>,
+    anns: Vec<GAnn>,
+}
+#[derive(Clone, Debug, PartialEq, Default)]
+pub struct GNode {
+    name: Option<String>,
+    ifaces: Vec<GIface>,
+    nodes: Vec<GNode>,
+}
+
+fn esc(s: &str, out: &mut String) {
+    for c in s.chars() {
+        match c {
+            '&' => out.push_str("&amp;"),
+            '<' => out.push_str("&lt;"),
+            '>' => out.push_str("&gt;"),
+            '"' => out.push_str("&quot;"),
+            '\'' => out.push_str("&apos;"),
+            '\t' => out.push_str("&#9;"),
+            '\n' => out.push_str("&#10;"),
+            '\r' => out.push_str("&#13;"),
+            c => out.push(c),
+        }
+    }
+}
+
+fn attr(k: &str, v: &str, out: &mut String) {
+    out.push(' ');
+    out.push_str(k);
+    out.push_str("=\"");
+    esc(v, out);
+    out.push('"');
+}
+
+fn w_anns(a: &[GAnn], ind: usize, out: &mut String) {
+    for x in a {
+        out.push_str(&" ".repeat(ind));
+        out.push_str("<annotation");
+        attr("name", &x.name, out);
+        attr("value", &x.value, out);
+        out.push_str("/>\n");
+    }
+}
+
+fn w_args(a: &[GArg], ind: usize, out: &mut String) {
+    for x in a {
+        out.push_str(&" ".repeat(ind));
+        out.push_str("<arg");
+        if let Some(n) = &x.name {
+            attr("name", n, out);
+        }
+        attr("type", &x.ty, out);
+        if let Some(d) = x.dir {
+            attr("direction", d, out);
+        }
+        if x.anns.is_empty() {
+            out.push_str("/>\n");
+        } else {
+            out.push_str(">\n");
+            w_anns(&x.anns, ind + 2, out);
+            out.push_str(&" ".repeat(ind));
+            out.push_str("</arg>\n");
+        }
+    }
+}
+
+fn w_member(tag: &str, m: &GMember, ind: usize, out: &mut String) {
+    out.push_str(&" ".repeat(ind));
+    out.push('<');
+    out.push_str(tag);
+    attr("name", &m.name, out);
+    if m.args.is_empty() && m.anns.is_empty() {
+        out.push_str("/>\n");
+        return;
+    }
+    out.push_str(">\n");
+    w_args(&m.args, ind + 2, out);
+    w_anns(&m.anns, ind + 2, out);
+    out.push_str(&" ".repeat(ind));
+    out.push_str("</");
+    out.push_str(tag);
+    out.push_str(">\n");
+}
+
+fn w_node(n: &GNode, ind: usize, out: &mut String) {
+    out.push_str(&" ".repeat(ind));
+    out.push_str("<node");
+    if let Some(name) = &n.name {
+        attr("name", name, out);
+    }
+    if n.ifaces.is_empty() && n.nodes.is_empty() {
+        out.push_str("/>\n");
+        return;
+    }
+    out.push_str(">\n");
+    for i in &n.ifaces {
+        out.push_str(&" ".repeat(ind + 2));
+        out.push_str("<interface");
+        attr("name", &i.name, out);
+        out.push_str(">\n");
+        for m in &i.methods {
+            w_member("method", m, ind + 4, out);
+        }
+        for p in &i.props {
+            out.push_str(&" ".repeat(ind + 4));
+            out.push_str("<property");
+            attr("name", &p.name, out);
+            attr("type", &p.ty, out);
+            attr("access", p.access, out);
+            if p.anns.is_empty() {
+                out.push_str("/>\n");
+            } else {
+                out.push_str(">\n");
+                w_anns(&p.anns, ind + 6, out);
+                out.push_str(&" ".repeat(ind + 4));
+                out.push_str("</property>\n");
+            }
+        }
+        for s in &i.signals {
+            w_member("signal", s, ind + 4, out);
+        }
+        w_anns(&i.anns, ind + 4, out);
+        out.push_str(&" ".repeat(ind + 2));
+        out.push_str("</interface>\n");
+    }
+    for c in &n.nodes {
+        w_node(c, ind + 2, out);
+    }
+    out.push_str(&" ".repeat(ind));
+    out.push_str("</node>\n");
+}
+
+pub fn to_xml(n: &GNode) -> String {
+    let mut s = String::from("<?xml version=\"1.0\" encoding=\"UTF-8\"?>\n");
+    w_node(n, 0, &mut s);
+    s
+}
+
+// ---------------------------------------------------------------------------------------------
+// pools
+// ---------------------------------------------------------------------------------------------
+
+/// [] , every single element, every element followed by its successor.
+fn lists_full<T: Clone>(pool: &[T]) -> Vec<Vec<T>> {
+    let mut out = vec![vec![]];
+    for x in pool {
+        out.push(vec![x.clone()]);
+    }
+    if pool.len() >= 2 {
+        for (i, x) in pool.iter().enumerate() {
+            out.push(vec![x.clone(), pool[(i + 1) % pool.len()].clone()]);
+        }
+    }
+    out
+}
+
+/// [] , [first], [second-to-last, last]
+fn lists_small<T: Clone>(pool: &[T]) -> Vec<Vec<T>> {
+    let n = pool.len();
+    vec![vec![], vec![pool[0].clone()], vec![pool[n - 2].clone(), pool[n - 1].clone()]]
+}
+
+pub struct Pools {
+    ann_values: Vec<String>,
+    anns: Vec<GAnn>,
+    args: Vec<GArg>,
+    members: Vec<GMember>,
+    props: Vec<GProp>,
+    ifaces: Vec<GIface>,
+}
+
+const SIGS: [&str; 3] = ["s", "a{sv}", "(ii)"];
+const MEMBER_NAMES: [&str; 2] = ["M", "m_1"];
+const PROP_NAMES: [&str; 2] = ["P", "p-1"];
+const IFACE_NAMES: [&str; 2] = ["a.b", "org.freedesktop.DBus.X1"];
+const ANN_NAMES: [&str; 2] = ["org.freedesktop.DBus.Deprecated", "a.b"];
+const ARG_NAMES: [Option<&str>; 3] = [None, Some("x"), Some("arg_1")];
+const DIRS: [Option<&str>; 3] = [None, Some("in"), Some("out")];
+const ACCESS: [&str; 3] = ["read", "write", "readwrite"];
+const NODE_NAMES: [Option<&str>; 3] = [None, Some("b"), Some("/a/b")];
+
+pub fn pools(tier: Tier) -> Pools {
+    let mut ann_values: Vec<String> = ["a", "<", "&", "\"", "'", "]]>"].iter().map(|s| s.to_string()).collect();
+    if tier == Tier::Thorough {
+        ann_values.extend(["", " x ", "é", "a\tb", "a\nb", ">", "&amp;", "<![CDATA[x]]>"].iter().map(|s| s.to_string()));
+    }
+    let mut anns = vec![];
+    for n in ANN_NAMES {
+        for v in &ann_values {
+            anns.push(GAnn { name: n.into(), value: v.clone() });
+        }
+    }
+    let ann_small = lists_small(&anns);
+    let ann_full = lists_full(&anns);
+
+    let mut args = vec![];
+    for n in ARG_NAMES {
+        for t in SIGS {
+            for d in DIRS {
+                for a in &ann_small {
+                    args.push(GArg { name: n.map(|s| s.to_string()), ty: t.into(), dir: d, anns: a.clone() });
+                }
+            }
+        }
+    }
+    for a in &ann_full {
+        args.push(GArg { name: Some("x".into()), ty: "s".into(), dir: Some("in"), anns: a.clone() });
+    }
+    let arg_small = lists_small(&args);
+    let arg_full = lists_full(&args);
+
+    let mut members = vec![];
+    for n in MEMBER_NAMES {
+        for al in &arg_full {
+            for an in &ann_small {
+                members.push(GMember { name: n.into(), args: al.clone(), anns: an.clone() });
+            }
+        }
+        for al in &arg_small {
+            for an in &ann_full {
+                members.push(GMember { name: n.into(), args: al.clone(), anns: an.clone() });
+            }
+        }
+    }
+    members.dedup();
+
+    let mut props = vec![];
+    for n in PROP_NAMES {
+        for t in SIGS {
+            for ac in ACCESS {
+                for an in &ann_full {
+                    props.push(GProp { name: n.into(), ty: t.into(), access: ac, anns: an.clone() });
+                }
+            }
+        }
+    }
+
+    let mem_small = lists_small(&members);
+    let mem_full = lists_full(&members);
+    let prop_small = lists_small(&props);
+    let prop_full = lists_full(&props);
+    let mut ifaces = vec![];
+    for n in IFACE_NAMES {
+        let base = GIface { name: n.into(), ..Default::default() };
+        // all combinations of the small lists
+        for m in &mem_small {
+            for p in &prop_small {
+                for s in &mem_small {
+                    for a in &ann_small {
+                        ifaces.push(GIface { methods: m.clone(), props: p.clone(), signals: s.clone(), anns: a.clone(), ..base.clone() });
+                    }
+                }
+            }
+        }
+        // each list varied alone over its full set
+        for m in &mem_full {
+            ifaces.push(GIface { methods: m.clone(), ..base.clone() });
+            ifaces.push(GIface { signals: m.clone(), ..base.clone() });
+        }
+        for p in &prop_full {
+            ifaces.push(GIface { props: p.clone(), ..base.clone() });
+        }
+        for a in &ann_full {
+            ifaces.push(GIface { anns: a.clone(), ..base.clone() });
+        }
+    }
+    Pools { ann_values, anns, args, members, props, ifaces }
+}
+
+/// The documents: (a) every interface of the pool alone and paired with its successor under an
+/// unnamed root, (b) node shapes to depth 2 with the small interface lists.
+pub enum Spec {
+    Single(usize),
+    Pair(usize),
+    Shape(usize),
+}
+
+pub fn shapes(p: &Pools) -> Vec<GNode> {
+    let if_small = lists_small(&p.ifaces);
+    // grandchildren: leaf nodes
+    let mut leaves = vec![];
+    for n in NODE_NAMES {
+        for i in &if_small {
+            leaves.push(GNode { name: n.map(|s| s.to_string()), ifaces: i.clone(), nodes: vec![] });
+        }
+    }
+    let leaf_small = lists_small(&leaves);
+    let mut children = vec![];
+    for n in NODE_NAMES {
+        for i in &if_small {
+            for g in &leaf_small {
+                children.push(GNode { name: n.map(|s| s.to_string()), ifaces: i.clone(), nodes: g.clone() });
+            }
+        }
+    }
+    let child_full = lists_full(&children);
+    let mut out = vec![];
+    for n in NODE_NAMES {
+        for i in &if_small {
+            for c in &child_full {
+                out.push(GNode { name: n.map(|s| s.to_string()), ifaces: i.clone(), nodes: c.clone() });
+            }
+        }
+    }
+    out
+}
+
+fn build(spec: &Spec, p: &Pools, sh: &[GNode]) -> GNode {
+    match spec {
+        Spec::Single(i) => GNode { name: None, ifaces: vec![p.ifaces[*i].clone()], nodes: vec![] },
+        Spec::Pair(i) => GNode {
+            name: Some("/a".into()),
+            ifaces: vec![p.ifaces[*i].clone(), p.ifaces[(*i + 1) % p.ifaces.len()].clone()],
+            nodes: vec![],
+        },
+        Spec::Shape(i) => sh[*i].clone(),
+    }
+}
+
+// ---------------------------------------------------------------------------------------------
+// comparison of a parsed value with generator content, and of two parsed values
+// ---------------------------------------------------------------------------------------------
+
+/// A difference: (element kind . attribute, expected, got, expected-was-absent).
+#[derive(Clone, Debug)]
+pub struct Diff {
+    kind: String,
+    exp: String,
+    got: String,
+    exp_absent: bool,
+}
+
+fn d(out: &mut Vec<Diff>, kind: &str, exp: impl ToString, got: impl ToString) {
+    out.push(Diff { kind: kind.to_string(), exp: exp.to_string(), got: got.to_string(), exp_absent: false });
+}
+fn d_opt(out: &mut Vec<Diff>, kind: &str, exp: Option<&str>, got: Option<&str>) {
+    if exp != got {
+        out.push(Diff { kind: kind.to_string(), exp: format!("{exp:?}"), got: format!("{got:?}"), exp_absent: exp.is_none() });
+    }
+}
+
+fn cmp_anns(ctx: &str, g: &[GAnn], a: &[zbus_xml::Annotation], out: &mut Vec<Diff>) {
+    if g.len() != a.len() {
+        d(out, &format!("{ctx}.annotations.len"), g.len(), a.len());
+    }
+    for (x, y) in g.iter().zip(a) {
+        if x.name != y.name() {
+            d(out, "annotation.name", &x.name, y.name());
+        }
+        if x.value != y.value() {
+            d(out, "annotation.value", &x.value, y.value());
+        }
+    }
+}
+
+fn cmp_args(g: &[GArg], a: &[zbus_xml::Arg], out: &mut Vec<Diff>) {
+    if g.len() != a.len() {
+        d(out, "member.args.len", g.len(), a.len());
+    }
+    for (x, y) in g.iter().zip(a) {
+        d_opt(out, "arg.name", x.name.as_deref(), y.name());
+        if y.ty().to_string() != x.ty || !(**y.ty() == x.ty.as_str()) {
+            d(out, "arg.type", &x.ty, y.ty().to_string());
+        }
+        let dir = y.direction().map(|v| match v {
+            ArgDirection::In => "in",
+            ArgDirection::Out => "out",
+        });
+        d_opt(out, "arg.direction", x.dir, dir);
+        cmp_anns("arg", &x.anns, y.annotations(), out);
+    }
+}
+
+/// Every difference between the generator's content and a parsed value.
+fn cmp_content(g: &GNode, n: &Node<'_>, out: &mut Vec<Diff>) {
+    d_opt(out, "node.name", g.name.as_deref(), n.name());
+    if g.ifaces.len() != n.interfaces().len() {
+        d(out, "node.interfaces.len", g.ifaces.len(), n.interfaces().len());
+    }
+    for (gi, i) in g.ifaces.iter().zip(n.interfaces()) {
+        if gi.name != i.name().as_str() {
+            d(out, "interface.name", &gi.name, i.name());
+        }
+        if gi.methods.len() != i.methods().len() {
+            d(out, "interface.methods.len", gi.methods.len(), i.methods().len());
+        }
+        for (gm, m) in gi.methods.iter().zip(i.methods()) {
+            if gm.name != m.name().as_str() {
+                d(out, "method.name", &gm.name, m.name());
+            }
+            cmp_args(&gm.args, m.args(), out);
+            cmp_anns("method", &gm.anns, m.annotations(), out);
+        }
+        if gi.signals.len() != i.signals().len() {
+            d(out, "interface.signals.len", gi.signals.len(), i.signals().len());
+        }
+        for (gm, m) in gi.signals.iter().zip(i.signals()) {
+            if gm.name != m.name().as_str() {
+                d(out, "signal.name", &gm.name, m.name());
+            }
+            cmp_args(&gm.args, m.args(), out);
+            cmp_anns("signal", &gm.anns, m.annotations(), out);
+        }
+        if gi.props.len() != i.properties().len() {
+            d(out, "interface.properties.len", gi.props.len(), i.properties().len());
+        }
+        for (gp, p) in gi.props.iter().zip(i.properties()) {
+            if gp.name != p.name().as_str() {
+                d(out, "property.name", &gp.name, p.name());
+            }
+            if p.ty().to_string() != gp.ty {
+                d(out, "property.type", &gp.ty, p.ty().to_string());
+            }
+            let acc = match p.access() {
+                PropertyAccess::Read => "read",
+                PropertyAccess::Write => "write",
+                PropertyAccess::ReadWrite => "readwrite",
+            };
+            if acc != gp.access || p.access().read() != gp.access.starts_with("read") || p.access().write() != gp.access.ends_with("write") {
+                d(out, "property.access", gp.access, acc);
+            }
+            cmp_anns("property", &gp.anns, p.annotations(), out);
+        }
+        cmp_anns("interface", &gi.anns, i.annotations(), out);
+    }
+    if g.nodes.len() != n.nodes().len() {
+        d(out, "node.nodes.len", g.nodes.len(), n.nodes().len());
+    }
+    for (gc, c) in g.nodes.iter().zip(n.nodes()) {
+        cmp_content(gc, c, out);
+    }
+}
+
+fn has_absent_direction(g: &GNode) -> bool {
+    g.ifaces.iter().any(|i| i.methods.iter().chain(&i.signals).any(|m| m.args.iter().any(|a| a.dir.is_none()))) || g.nodes.iter().any(has_absent_direction)
+}
+
+fn special_of(s: &str) -> &'static str {
+    for (c, n) in [("]]>", "cdata-end"), ("<", "lt"), ("&", "amp"), ("\"", "quot"), ("'", "apos"), (">", "gt"), ("\t", "tab"), ("\n", "newline"), ("é", "non-ascii")] {
+        if s.contains(c) {
+            return n;
+        }
+    }
+    if s.is_empty() {
+        "empty"
+    } else if s.starts_with(' ') || s.ends_with(' ') {
+        "outer-space"
+    } else {
+        "none"
+    }
+}
+
+type Feats = BTreeMap<&'static str, String>;
+
+pub struct Obs {
+    pub class: &'static str,
+    pub fails: Vec<(&'static str, String, Feats)>,
+}
+
+fn diff_fails(clause: &'static str, prefix: &str, diffs: &[Diff]) -> Vec<(&'static str, String, Feats)> {
+    let mut seen = std::collections::BTreeSet::new();
+    let mut out = vec![];
+    for x in diffs {
+        let f: Feats = BTreeMap::from([
+            ("where", x.kind.clone()),
+            ("special", special_of(&x.exp).to_string()),
+            ("expected_absent", x.exp_absent.to_string()),
+        ]);
+        if seen.insert(format!("{f:?}")) {
+            out.push((clause, format!("{prefix} at {}: document says {}, value has {}", x.kind, x.exp, x.got), f));
+        }
+    }
+    out
+}
+
+pub fn check_doc(g: &GNode, xml: &str) -> Obs {
+    let r = vcommon::catch(|| -> Obs {
+        let simple = |w: &str| -> Feats { BTreeMap::from([("where", w.to_string())]) };
+        let n1 = match Node::from_reader(xml.as_bytes()) {
+            Ok(n) => n,
+            Err(e) => return Obs { class: "generated-document-not-parsed", fails: vec![("parse-generated", format!("zbus_xml cannot parse the generated document: {e}"), Feats::new())] },
+        };
+        let mut diffs = vec![];
+        cmp_content(g, &n1, &mut diffs);
+        if !diffs.is_empty() {
+            return Obs { class: "content-differs", fails: diff_fails("accessors-return-content", "parsed value differs from the document", &diffs) };
+        }
+        // the borrowed-str parser must give the same value
+        match Node::try_from(xml) {
+            Ok(n) if n == n1 => {}
+            Ok(_) => return Obs { class: "parsers-differ", fails: vec![("roundtrip-equal", "TryFrom<&str> and from_reader give different values for the same document".into(), simple("parsers"))] },
+            Err(e) => return Obs { class: "parsers-differ", fails: vec![("reparse-succeeds", format!("TryFrom<&str> fails on a document from_reader accepts: {e}"), simple("parsers"))] },
+        }
+        let mut buf = vec![];
+        if let Err(e) = n1.to_writer(&mut buf) {
+            return Obs { class: "write-failed", fails: vec![("write-succeeds", format!("to_writer failed: {e}"), simple("write"))] };
+        }
+        let written = match String::from_utf8(buf) {
+            Ok(s) => s,
+            Err(_) => return Obs { class: "write-failed", fails: vec![("write-succeeds", "to_writer produced invalid UTF-8".into(), simple("write"))] },
+        };
+        let mut class = "roundtrip-equal";
+        let mut fails = vec![];
+        for (route, n2) in [("from_reader", Node::from_reader(written.as_bytes())), ("TryFrom<&str>", Node::try_from(written.as_str()))] {
+            match n2 {
+                Err(e) => {
+                    class = "reparse-failed";
+                    let mut f = simple("reparse");
+                    f.insert("route", route.to_string());
+                    f.insert("doc_has_arg_without_direction", has_absent_direction(g).to_string());
+                    fails.push(("reparse-succeeds", format!("{route} cannot read what to_writer wrote: {e}; written: {}", written.replace('\n', " ")), f));
+                }
+                Ok(n2) => {
+                    if n2 != n1 || n1 != n2 {
+                        if class == "roundtrip-equal" {
+                            class = "roundtrip-differs";
+                        }
+                        // locate the differences through the generator's content (n1 matched it)
+                        let mut diffs = vec![];
+                        cmp_content(g, &n2, &mut diffs);
+                        if diffs.is_empty() {
+                            fails.push(("roundtrip-equal", format!("{route}(write(v)) != v but no accessor shows a difference"), simple("unlocated")));
+                        }
+                        for mut f in diff_fails("roundtrip-equal", &format!("{route}(write(v)) != v"), &diffs) {
+                            f.2.insert("route", route.to_string());
+                            fails.push(f);
+                        }
+                    }
+                }
+            }
+        }
+        Obs { class, fails }
+    });
+    match r {
+        Ok(o) => o,
+        Err(m) => Obs { class: "panicked", fails: vec![("no-panic", format!("panicked: {m} at {}", vcommon::last_panic_location()), Feats::new())] },
+    }
+}
+
+// ---------------------------------------------------------------------------------------------
+// main
+// ---------------------------------------------------------------------------------------------
+
+#[derive(Default)]
+struct Local {
+    evals: u64,
+    outcomes: BTreeMap<String, u64>,
+    nontrivial: Vec<u64>,
+    viol: BTreeMap<String, (u64, Option<Violation>)>,
+    samples: Vec<serde_json::Value>,
+}
+
+pub fn main(args: &Args) -> i32 {
+    if let Some(p) = &args.replay {
+        return replay(p);
+    }
+    let report = Report::new("C34", args.tier, args.seed, "exploration");
+    let p = pools(args.tier);
+    let sh = shapes(&p);
+    let mut specs: Vec<Spec> = vec![];
+    specs.extend((0..sh.len()).map(Spec::Shape));
+    specs.extend((0..p.ifaces.len()).map(Spec::Single));
+    specs.extend((0..p.ifaces.len()).map(Spec::Pair));
+    report.set(
+        "pool_sizes",
+        json!({"annotation_values": p.ann_values.len(), "annotations": p.anns.len(), "args": p.args.len(), "methods_or_signals": p.members.len(),
+               "properties": p.props.len(), "interfaces": p.ifaces.len(), "node_shapes": sh.len()}),
+    );
+
+    const BLOCK: usize = 256;
+    let n_blocks = specs.len().div_ceil(BLOCK);
+    let run_block = |b: usize| {
+        let mut loc = Local::default();
+        for k in b * BLOCK..((b + 1) * BLOCK).min(specs.len()) {
+            let g = build(&specs[k], &p, &sh);
+            let xml = to_xml(&g);
+            let o = check_doc(&g, &xml);
+            loc.evals += 1;
+            let shape = match &specs[k] {
+                Spec::Shape(_) => "node-tree",
+                Spec::Single(_) => "one-interface",
+                Spec::Pair(_) => "two-interfaces",
+            };
+            *loc.outcomes.entry(format!("{shape}:{}", o.class)).or_insert(0) += 1;
+            // non-trivial: the document has at least one interface member/annotation or a child node
+            let nontrivial = !g.nodes.is_empty() || g.ifaces.iter().any(|i| !i.methods.is_empty() || !i.props.is_empty() || !i.signals.is_empty() || !i.anns.is_empty());
+            if nontrivial {
+                loc.nontrivial.push(hash64(&xml));
+                if loc.samples.is_empty() && xml.len() > 300 && xml.len() < 900 {
+                    loc.samples.push(json!({"document": xml, "outcome": o.class}));
+                }
+            }
+            for (clause, detail, feats) in o.fails {
+                let id = format!("{clause} {feats:?}");
+                let e = loc.viol.entry(id).or_insert((0, None));
+                e.0 += 1;
+                if e.1.is_none() {
+                    let mut v = Violation::new(clause, detail, json!({"xml": xml}));
+                    for (k, val) in feats {
+                        v = v.feat(k, val);
+                    }
+                    e.1 = Some(v);
+                }
+            }
+        }
+        report.eval(loc.evals);
+        for (k, n) in &loc.outcomes {
+            report.outcome_n(k, *n);
+        }
+        report.nontrivial_many(loc.nontrivial);
+        for (_, (n, v)) in loc.viol {
+            report.add("violating_documents", n);
+            if let Some(v) = v {
+                report.violation(v);
+            }
+        }
+        for s in loc.samples {
+            if report.n_samples() < 4 {
+                report.sample(s);
+            }
+        }
+    };
+    // the node-shape documents (smallest) first and alone, so the kept witnesses are small
+    run_block(0);
+    vcommon::par_for(n_blocks.saturating_sub(1), 1, |b| run_block(b + 1));
+
+    report.set("documents", json!(specs.len()));
+    report.cap("the full cross product of the grammar at depth 2 / <= 2 children is not enumerable; each element kind's own attribute product is complete, lists are [] / each single / each adjacent pair, and the contexts above an element use base choice (small lists)");
+    report.assume("the generator's XML printer escapes & < > \" ' (and tab/newline as character references) in attribute values; python3 expat reads these documents identically (checked once while building the check)");
+    report.assume("same-named children are written contiguously (methods, properties, signals, annotations), the order zbus_xml itself writes");
+    report.finish(
+        "documents = node trees to depth 2 over the small interface lists + every interface of the pool alone and paired with its successor; non-trivial = has a member, annotation or child node; distinct by generated XML text",
+        true,
+    )
+}
+
+fn replay(path: &str) -> i32 {
+    let v = vcommon::load_replay(path);
+    let Some(xml) = v["replay"]["xml"].as_str() else {
+        vcommon::machinery_failure("C34 replay: artefact needs replay.xml");
+    };
+    println!("C34 replay: document\n{xml}");
+    let n1 = match vcommon::catch(|| Node::from_reader(xml.as_bytes())) {
+        Ok(Ok(n)) => n,
+        Ok(Err(e)) => {
+            println!("  parse failed: {e}\nC34 replay: reproduced (document not parsed)");
+            return 1;
+        }
+        Err(m) => {
+            println!("  parse panicked: {m}\nC34 replay: reproduced");
+            return 1;
+        }
+    };
+    let mut buf = vec![];
+    let w = n1.to_writer(&mut buf);
+    let written = String::from_utf8_lossy(&buf).to_string();
+    println!("  to_writer: {:?}\n  written: {written}", w.as_ref().map_err(|e| e.to_string()));
+    let n2 = Node::from_reader(written.as_bytes());
+    match n2 {
+        Ok(n2) if n2 == n1 => {
+            println!("  parse(write(v)) == v\nC34 replay: not reproduced (accessor-level mismatches need the generator; run the check)");
+            0
+        }
+        Ok(n2) => {
+            println!("  parse(write(v)) != v\n  v  = {n1:?}\n  v' = {n2:?}\nC34 replay: reproduced");
+            1
+        }
+        Err(e) => {
+            println!("  re-parse failed: {e}\nC34 replay: reproduced");
+            1
+        }
+    }
 }
